@@ -1431,6 +1431,10 @@ class Router(NetworkNode, discriminator="router"):
         if self.check_send_frame_to_session_manager(frame):
             # Port is open on this Router so pass Frame up to session manager first
             self.session_manager.receive_frame(frame, from_network_interface)
+        elif frame.ip.protocol == "udp" and frame.is_arp and isinstance(frame.payload, ARPPacket):
+            # ARP is link-local: a request or reply for somebody else's address is never routed (routing it makes two
+            # routers on one segment answer each other's requests for an unowned address with new requests, endlessly)
+            return
         else:
             self.process_frame(frame, from_network_interface)
 
